@@ -244,6 +244,8 @@ func (p c05) hostileSession(c *fw.Ctx, uniq *int) []string {
 			// the name updated more than once inside one expression: every operand is the value at the time it was evaluated
 			"print((++V) + (++V))", "print(++V == ++V)", "print(++V * --V)", "print((--V) - (--V), V)", "print([++V, ++V, V])", "print((V++) + (V++), V)", "print(V + (++V), (++V) + V)", "print((++V) * 10 + (V++))",
 			"x = ++V; --V; print(x, V)", "print(++V < ++V, --V <= V)", "print({\"a\": ++V, \"b\": ++V})", "print(max(++V, ++V), min(--V, V))", "print((V = V + 1) + (V = V + 1))", "print(-(++V), !(++V == V))",
+			// named functions defined inside the body that read the name, or have a parameter of that name
+			"func nf() {V + 1}; print(nf())", "func nf2(V) {V * 2}; print(nf2(3), V)", "func nf3(a) {a + V}; print(nf3(1), nf3(2))", "func nf4(a, V) {[a, V]}; print(nf4(V, 7))", "func nf5() {func nf6() {V}; nf6()}; print(nf5())",
 			"print({V: print(\"a\"), V: print(\"b\")})", "print({V: 1, V: 2, 9: V})", "print([{V: V, V: print(\"c\")}])"}
 		setup := "cv = 0; qv = 0; bm = {0: \"a\", 1: \"b\", 2: \"c\", 3: \"d\", 4: \"e\", 5: \"f\", \"s\": 1, 2.5: 2}; ba = [0, 1, 2, 3, 4, 5, 6, 7, 8, 9, 10]; a = [10, 20, 30, 40]; m = {\"V\": 5, \"k\": 1, 1: \"one\"}; mf = {\"V\": z => z * 3}; s = \"hello\"; t = 0"
 		var body []string
